@@ -18,8 +18,9 @@ import (
 )
 
 // r6NoteRequests makes the target log every request of the case under the name q<i>; the returned function renders the log.
-func r6NoteRequests(reqs []shot.HTTPReq) func() string {
-	tok, note := r3NewNote("")
+func r6NoteRequests(reqs []shot.HTTPReq, watch string) (func() string, *r3Note) {
+	tok, note := r3NewNote(watch)
+	note.watchSeen = true
 	names := make([]string, len(reqs))
 	for i := range reqs {
 		names[i] = fmt.Sprintf("q%d", i+1)
@@ -32,7 +33,7 @@ func r6NoteRequests(reqs []shot.HTTPReq) func() string {
 	return func() string {
 		defer r3Notes.Delete(tok)
 		return note.hitList(names)
-	}
+	}, note
 }
 
 // r6Overflow sets the pool's `discard_overflow` and, for `sch=c<ops>`, replaces the `once` schedule by a constant rate of
@@ -183,6 +184,33 @@ func genRound6(r *rand.Rand, thorough bool) []string {
 		}
 		// the values of the keys that are NOT written differ from the defaults, so that a default taken from the input shows
 		out = append(out, httpCase(gun, tgt, true, []int{1, 3, 3, 1, 3, 3, 1}[c], c%2 == 0, "atd="+keys, reqs))
+	}
+	// CANCELLED WHILE A REQUEST IS IN FLIGHT (`cxf=<i>`): the run's context — the instance's and the gun's — is cancelled 300 ms
+	// after the target has SEEN request i, which it answers 1.5 s late. The exchange goes on to its end (the guns build their
+	// requests without the instance's context), its sample is faithful, and the instance stops: later requests are not fired.
+	for c := 0; c < pick(2, 10); c++ {
+		n := 4 + r.Intn(3)
+		at := 1 + r.Intn(2)
+		var reqs []string
+		for i := 0; i < n; i++ {
+			tag := tagPool[r.Intn(len(tagPool))]
+			p := fmt.Sprintf("/cxf/%d/%s", i, randSeg(r))
+			uri := p
+			if i == at {
+				uri += "?dl=1500"
+			}
+			reqs = append(reqs, httpReqTok(tag, uri, p, []string{"s200.bx3", "s404", "s503.bx10", "s201.bx1"}[(i+c)%4]))
+		}
+		out = append(out, fmt.Sprintf("k=http gun=%s tgt=r3 auto=%d el=2 nto=0 ovf=0 cxf=%d reqs=%s", []string{"http", "connect"}[c%2], b(c%2 == 0), at+1,
+			strings.Join(reqs, ";")))
+	}
+	// gRPC scenario calls WITHOUT a tag (valid: the key is optional): the sample carries `scenario.` + the empty tag
+	for c := 0; c < pick(2, 10); c++ {
+		calls := []string{"c0,,ok,0,-", fmt.Sprintf("c1,tg1,code,%d,-", []int{5, 7, 13}[c%3]), "c2,,ok,0,-"}
+		if c%2 == 1 {
+			calls = []string{"c0,tg0,ok,0,-", fmt.Sprintf("c1,,code,%d,-", []int{3, 16}[c%2]), "c2,tg2,ok,0,-"}
+		}
+		out = append(out, fmt.Sprintf("k=grpcscn scn=ge%d n=%d calls=%s", c, 1+c%3, strings.Join(calls, ";")))
 	}
 	// the same slow targets with discard_overflow OFF (every request is fired, however late), and discard_overflow on
 	// with a target that keeps up (nothing is discarded)
